@@ -14,4 +14,40 @@ PROPS = {
         "assumptions": COMMON_ASSUME,
         "min_counters": {"rewrite_checked": (5000, 50000), "member_checks": (200000, 2000000), "store_terms_walked": (20000, 200000)},
     },
+    "C02": {
+        "level": "translation_validation",
+        "programs_counter": "automata_validated",
+        "rule": "case = one term of a generated construction program handed to compile/try_compile; distinct key = rendering of the construction DAG; non-trivial = construction with at least 3 nodes",
+        "explanation": "each compiled automaton is observed through states()/state()/next()/is_final() at 3 probes per (state, joint atom) cell and decided language-equivalent to RefDfa(term AST) by product BFS; totality = no cell panics; accepts/str_next re-checked on words; sampled full-alphabet sweeps of next()",
+        "assumptions": COMMON_ASSUME,
+        "min_counters": {"automata_validated": (5000, 50000), "cells_probed": (500000, 5000000), "automata_swept_over_full_alphabet": (50, 2000)},
+    },
+    "C03": {
+        "level": "exploration",
+        "rule": "case = one term of a generated program; for it every class id, every break-point character of every class, all pairs of break points as sets, invalid ids, random words; plus every key of the derivative cache re-queried through class_derivative; distinct key = construction DAG; non-trivial = at least 3 nodes",
+        "explanation": "L(derivative) is compared with the state reached in RefDfa(term AST) after the character (exact quotient equivalence); set_derivative Ok/Err is compared with the set-theoretic position of the set relative to the exposed class intervals",
+        "assumptions": COMMON_ASSUME,
+        "min_counters": {"class_char_probes": (50000, 500000), "set_derivative_probes": (100000, 1000000), "cache_entry_probes": (5000, 100000), "invalid_class_id_probes": (10000, 100000)},
+    },
+    "C05": {
+        "level": "exploration",
+        "rule": "case = one term (program result or sampled store term); distinct key = construction DAG; non-trivial = at least 3 nodes",
+        "explanation": "is_empty_re vs emptiness of RefDfa(term AST); get_string None iff empty, witness is_good and accepted by RefDfa, DP matcher, str_in_re and compile(e)",
+        "assumptions": COMMON_ASSUME,
+        "min_counters": {"witnesses_checked": (5000, 50000), "terms_semantically_but_not_syntactically_empty": (300, 3000)},
+    },
+    "C18": {
+        "level": "exploration",
+        "rule": "case = one term x all its break-point characters and class ids; distinct key = construction DAG; non-trivial = at least 3 nodes",
+        "explanation": "start_char(e,c) vs non-emptiness of the state reached in RefDfa(term AST) after c; start_class vs the same for every probe of the class; invalid ids must give BadClassId",
+        "assumptions": COMMON_ASSUME,
+        "min_counters": {"start_char_probes": (100000, 1000000), "start_char_true_answers": (10000, 100000)},
+    },
+    "C19": {
+        "level": "exploration",
+        "rule": "case = one term: its derivative closure pulled item by item, an independent BFS with char_derivative on all break-point characters, and try_compile at bounds {0,1,count-1,count,count+1,2count,MAX}; termination restated as bounded progress on the calibrated small profile; distinct key = construction DAG; non-trivial = at least 3 nodes",
+        "explanation": "set equality between iter_derivatives and the independent closure, first element, no duplicates, count >= Myhill-Nerode index from RefDfa, try_compile Some iff n >= count, num_states == count",
+        "assumptions": COMMON_ASSUME + ["termination is only checked as: on the small profile (<=12 constructor calls, loop bounds <=3) the iterator ends within 50000 items"],
+        "min_counters": {"closures_enumerated": (5000, 50000), "try_compile_bound_probes": (20000, 200000), "small_profile_programs": (500, 5000)},
+    },
 }
